@@ -278,8 +278,12 @@ func (namespaceManager *NamespaceManager) GetPrefixMappingForExpansion(uriExpans
 }
 
 func (namespaceManager *NamespaceManager) GetPrefixToExpansionMap() (result map[string]string) {
+	// hand out a copy: callers iterate and serialise the map while other requests assert new namespaces
 	namespaceManager.lock.Lock()
-	result = namespaceManager.prefixToExpansionMapping
+	result = make(map[string]string, len(namespaceManager.prefixToExpansionMapping))
+	for k, v := range namespaceManager.prefixToExpansionMapping {
+		result[k] = v
+	}
 	namespaceManager.lock.Unlock()
 	return
 }
